@@ -215,8 +215,11 @@ func (w *World) userControl(ui int, op *UserOp) {
 }
 
 func (w *World) lnNetwork() string {
-	if w.p.Cfg.Network == "tcp6" {
+	switch w.p.Cfg.Network {
+	case "tcp6":
 		return "tcp"
+	case "udp6", "udp4":
+		return "udp"
 	}
 	return w.p.Cfg.Network
 }
